@@ -30,7 +30,8 @@ Definition LIFELINE_LABEL_PAD : Q := 5.
 Definition LABEL_PADDING : Q := 5.
 Definition YSTEP : Q := MIN_MESSAGE_DISTANCE + VERTICAL_PAD.     (* sd.yStep after newSequenceDiagram *)
 
-(* ---------- numbers ---------- *)
+(* ---------- numbers ----------
+   x / 2. of the Go code is written  x * (1#2)  (the same rational). *)
 Definition qmax (a b : Q) : Q := if Qle_bool a b then b else a.
 Definition qmin (a b : Q) : Q := if Qle_bool a b then a else b.
 Definition qlt_b (a b : Q) : bool := negb (Qle_bool b a).
@@ -108,10 +109,10 @@ Definition base_step (inp : input) (r : nat) : Q :=
   let acts := i_actors inp in
   let a := nth r acts actor0 in
   let b := nth (S r) acts actor0 in
-  let s0 := qmax (adj_w a / 2 + a_w b / 2 + HORIZONTAL_PAD) MIN_ACTOR_DISTANCE in
-  let s1 := qmax (note_w_max (i_notes inp) r / 2 + HORIZONTAL_PAD) s0 in
+  let s0 := qmax (adj_w a * (1#2) + a_w b * (1#2) + HORIZONTAL_PAD) MIN_ACTOR_DISTANCE in
+  let s1 := qmax (note_w_max (i_notes inp) r * (1#2) + HORIZONTAL_PAD) s0 in
   if Nat.ltb (S (S r)) (length acts)
-  then qmax (note_w_max (i_notes inp) (S r) / 2 + HORIZONTAL_PAD) s1
+  then qmax (note_w_max (i_notes inp) (S r) * (1#2) + HORIZONTAL_PAD) s1
   else s1.
 
 (* contribution of one message to actorXStep[r] *)
@@ -132,12 +133,12 @@ Definition x_step (inp : input) (r : nat) : Q := fold_left (step_acc r) (i_msgs 
 (* ---------- placeActors ---------- *)
 Fixpoint center_x (inp : input) (r : nat) : Q :=
   match r with
-  | O => adj_w (nth 0 (i_actors inp) actor0) / 2
+  | O => adj_w (nth 0 (i_actors inp) actor0) * (1#2)
   | S r' => center_x inp r' + x_step inp r'
   end.
 
 (* argument of math.Round for actor r *)
-Definition unrounded_x (inp : input) (r : nat) : Q := center_x inp r - adj_w (nth r (i_actors inp) actor0) / 2.
+Definition unrounded_x (inp : input) (r : nat) : Q := center_x inp r - adj_w (nth r (i_actors inp) actor0) * (1#2).
 
 (* math.Round: half away from zero *)
 Definition go_round (v : Q) : Q :=
@@ -158,7 +159,7 @@ Definition actor_boxes (inp : input) (xs : list Q) : list box :=
   map (actor_box inp xs) (seq 0 (length (i_actors inp))).
 
 (* actor.Center().X *)
-Definition acx (inp : input) (xs : list Q) (r : nat) : Q := nth r xs 0 + adj_w (nth r (i_actors inp) actor0) / 2.
+Definition acx (inp : input) (xs : list Q) (r : nat) : Q := nth r xs 0 + adj_w (nth r (i_actors inp) actor0) * (1#2).
 
 (* ---------- placeNotes ---------- *)
 Definition msg_vspace (m : msg) : Q :=
@@ -172,7 +173,7 @@ Definition note_y (inp : input) (vi : Z) : Q :=
   + sumQ (map (fun n => n_h n + YSTEP) (filter (fun n => Z.ltb (n_vi n) vi) (i_notes inp))).
 
 Definition note_box (inp : input) (xs : list Q) (n : note) : box :=
-  mkBox (acx inp xs (n_rank n) - n_w n / 2) (note_y inp (n_vi n)) (n_w n) (n_h n).
+  mkBox (acx inp xs (n_rank n) - n_w n * (1#2)) (note_y inp (n_vi n)) (n_w n) (n_h n).
 
 Definition note_boxes (inp : input) (xs : list Q) : list box := map (note_box inp xs) (i_notes inp).
 
@@ -191,7 +192,7 @@ Definition route1 (inp : input) (xs : list Q) (off : Q) (m : msg) : list pt * Q 
   let sx := acx inp xs (m_src m) in
   let ex := acx inp xs (m_dst m) in
   if same_actor m then
-    let midx := sx + qmax SELF_MESSAGE_HORIZONTAL_TRAVEL (iz (m_lw m) / 2 + LABEL_PADDING * 2) in
+    let midx := sx + qmax SELF_MESSAGE_HORIZONTAL_TRAVEL (iz (m_lw m) * (1#2) + LABEL_PADDING * 2) in
     let sy := off + no in
     let ey := sy + self_height m in
     ([(sx, sy); (midx, sy); (midx, ey); (ex, ey)], ey + YSTEP - no)
@@ -231,14 +232,15 @@ Definition sort_desc {A} (key : A -> Z) (l : list A) : list A := fold_left (fun 
 Definition lookup {A} (k : nat) (l : list (nat * A)) : option A :=
   match find (fun p => Nat.eqb (fst p) k) l with Some p => Some (snd p) | None => None end.
 
-Definition span_box (inp : input) (xs : list Q) (rts : list (list pt)) (nboxes : list box)
-           (done : list (nat * box)) (k : nat) : box :=
+(* vertical extent (TopLeft.Y, Height) of span k; [done]: the spans placed so far *)
+Definition span_yh (inp : input) (rts : list (list pt)) (nboxes : list box)
+           (done : list (nat * (Q * Q))) (k : nat) : Q * Q :=
   let s := nth k (i_spans inp) span0 in
   let mr := combine (i_msgs inp) rts in
-  let cboxes := flat_map (fun c => match lookup c done with Some b => [b] | None => [] end) (s_cspans s)
-                ++ map (fun c => nth c nboxes box0) (s_cnotes s) in
-  let minc := fold_left (fun acc b => omin acc (b_y b)) cboxes None in
-  let maxc := fold_left (fun acc b => omax acc (b_y b + b_h b)) cboxes None in
+  let cext := flat_map (fun c => match lookup c done with Some yh => [yh] | None => [] end) (s_cspans s)
+              ++ map (fun c => let b := nth c nboxes box0 in (b_y b, b_h b)) (s_cnotes s) in
+  let minc := fold_left (fun acc yh => omin acc (fst yh)) cext None in
+  let maxc := fold_left (fun acc yh => omax acc (fst yh + snd yh)) cext None in
   let minm := match find_touch k mr with
               | Some (m, r) => Some (if m_self m || is_some_eq (m_srcspan m) k then first_y r else last_y r)
               | None => None end in
@@ -251,15 +253,18 @@ Definition span_box (inp : input) (xs : list Q) (rts : list (list pt)) (nboxes :
               | Some a, Some b => qmax a b | Some a, None => a | None, Some b => b | None, None => 0 end in
   let miny := miny - SPAN_MESSAGE_PAD in
   let maxy := maxy + SPAN_MESSAGE_PAD in
-  let w := span_w s in
-  mkBox (acx inp xs (s_rank s) - w / 2) miny w (qmax (maxy - miny) MIN_SPAN_HEIGHT).
+  (miny, qmax (maxy - miny) MIN_SPAN_HEIGHT).
 
 Definition span_order (inp : input) : list nat :=
   sort_desc (fun k => s_depth (nth k (i_spans inp) span0)) (seq 0 (length (i_spans inp))).
 
 Definition span_boxes0 (inp : input) (xs : list Q) (rts : list (list pt)) (nboxes : list box) : list box :=
-  let done := fold_left (fun done k => (k, span_box inp xs rts nboxes done k) :: done) (span_order inp) [] in
-  map (fun k => match lookup k done with Some b => b | None => box0 end) (seq 0 (length (i_spans inp))).
+  let done := fold_left (fun done k => (k, span_yh inp rts nboxes done k) :: done) (span_order inp) [] in
+  map (fun k => let s := nth k (i_spans inp) span0 in
+                let w := span_w s in
+                let yh := match lookup k done with Some yh => yh | None => (0, 0) end in
+                mkBox (acx inp xs (s_rank s) - w * (1#2)) (fst yh) w (snd yh))
+      (seq 0 (length (i_spans inp))).
 
 (* ---------- adjustRouteEndpoints ---------- *)
 Definition map_first {A} (f : A -> A) (l : list A) : list A := match l with [] => [] | x :: t => f x :: t end.
@@ -271,13 +276,13 @@ Definition src_shift (inp : input) (m : msg) : Q :=
   match m_srcspan m with
   | None => 0
   | Some k => let w := span_w (nth k (i_spans inp) span0) in
-              if Nat.leb (m_src m) (m_dst m) then w / 2 else - (w / 2)
+              if Nat.leb (m_src m) (m_dst m) then w * (1#2) else - (w * (1#2))
   end.
 Definition dst_shift (inp : input) (m : msg) : Q :=
   match m_dstspan m with
   | None => 0
   | Some k => let w := span_w (nth k (i_spans inp) span0) in
-              if Nat.ltb (m_src m) (m_dst m) then - (w / 2) else w / 2
+              if Nat.ltb (m_src m) (m_dst m) then - (w * (1#2)) else w * (1#2)
   end.
 
 Definition adjust_route (inp : input) (m : msg) (r : list pt) : list pt :=
@@ -294,7 +299,7 @@ Definition ext_add (e : option ext) (x0 y0 x1 y1 : Q) : option ext :=
   | Some e => Some (mkExt (qmin (e_minx e) x0) (qmin (e_miny e) y0) (qmax (e_maxx e) x1) (qmax (e_maxy e) y1))
   end.
 
-Definition edge_pad (m : msg) : Q := qmax (iz (m_lh m) / 2 + GROUP_CONTAINER_PADDING) (MIN_MESSAGE_DISTANCE / 2).
+Definition edge_pad (m : msg) : Q := qmax (iz (m_lh m) * (1#2) + GROUP_CONTAINER_PADDING) (MIN_MESSAGE_DISTANCE * (1#2)).
 
 Definition group_box (inp : input) (rts : list (list pt)) (nboxes : list box)
            (done : list (nat * option box)) (k : nat) : option box :=
@@ -307,8 +312,8 @@ Definition group_box (inp : input) (rts : list (list pt)) (nboxes : list box)
               | None => e end) (gr_msgs g) None in
   let e1 := fold_left (fun e j =>
               let b := nth j nboxes box0 in
-              ext_add e (b_x b - HORIZONTAL_PAD) (b_y b - MIN_MESSAGE_DISTANCE / 2)
-                        (b_x b + b_w b + HORIZONTAL_PAD) (b_y b + b_h b + MIN_MESSAGE_DISTANCE / 2))
+              ext_add e (b_x b - HORIZONTAL_PAD) (b_y b - MIN_MESSAGE_DISTANCE * (1#2))
+                        (b_x b + b_w b + HORIZONTAL_PAD) (b_y b + b_h b + MIN_MESSAGE_DISTANCE * (1#2)))
               (gr_notes g) e0 in
   let e2 := fold_left (fun e j =>
               match lookup j done with
@@ -473,7 +478,7 @@ Definition endpoint_ok_b (g : geom) (rank : nat) (sp : option nat) (p : pt) : bo
       match sp with
       | None => on_lifeline_b l p
       | Some k => match nth_error (g_spans g) k with
-                  | Some b => on_span_x_b b p && close (fst (fst l)) (b_x b + b_w b / 2)
+                  | Some b => on_span_x_b b p && close (fst (fst l)) (b_x b + b_w b * (1#2))
                               && qlt_b (snd (fst l)) (snd p) && qlt_b (snd p) (snd (snd l))
                   | None => false end
       end
@@ -487,12 +492,12 @@ Definition msg_endpoints_b (g : geom) (m : msg) (r : list pt) : bool :=
 Definition msgs_endpoints_b (inp : input) (g : geom) : bool :=
   forallb (fun p => msg_endpoints_b g (fst p) (snd p)) (combine (i_msgs inp) (g_msgs g)).
 
-(* clause 15: every actor has a vertical lifeline through its centre starting at its baseline *)
+(* clause 15: every actor has a vertical lifeline through its centre starting at or below the shape *)
 Definition lifelines_b (inp : input) (g : geom) : bool :=
   Nat.eqb (length (g_lifelines g)) (length (g_actors g)) &&
   forallb (fun p => let '(b, l) := p in
-                    close (fst (fst l)) (b_x b + b_w b / 2) && close (fst (snd l)) (b_x b + b_w b / 2)
-                    && Qle_bool (b_y b + b_h b) (snd (fst l) + tol) && qlt_b (snd (fst l)) (snd (snd l)))
+                    close (fst (fst l)) (b_x b + b_w b * (1#2)) && close (fst (snd l)) (b_x b + b_w b * (1#2))
+                    && Qle_bool (b_y b + b_h b) (snd (fst l) + tol))
           (combine (g_actors g) (g_lifelines g)).
 
 (* clause 16 (implementation only, not proved for the model): an endpoint on a span lies within the
@@ -511,25 +516,30 @@ Definition msgs_span_y_b (inp : input) (g : geom) : bool :=
                     | q :: _ => span_y_b g (m_srcspan m) q && span_y_b g (m_dstspan m) (last r (0,0))
                     end) (combine (i_msgs inp) (g_msgs g)).
 
-(* ---------- well-formedness of an input (what the theorems assume) ---------- *)
-Definition actor_wf (a : actor) : Prop := 0 <= a_w a /\ 0 <= a_h a /\ (0 <= a_lh a)%Z.
-Definition note_wf (n : note) : Prop := 0 <= n_h n.
-Definition msg_wf (nact : nat) (m : msg) : Prop := (0 <= m_lh m)%Z /\ (m_src m < nact)%nat /\ (m_dst m < nact)%nat.
-Definition group_wf (g : group) : Prop := (0 <= gr_lh g)%Z.
-
-Fixpoint vi_sorted (ms : list msg) : Prop :=
-  match ms with
-  | a :: ((b :: _) as t) => (m_vi a <= m_vi b)%Z /\ vi_sorted t
-  | _ => True
+(* ---------- well-formedness of an input (what the theorems assume; decidable, evaluated by
+   Check.v on every case as code 5) ---------- *)
+Definition span_ref_ok (inp : input) (rank : nat) (o : option nat) : bool :=
+  match o with
+  | None => true
+  | Some k => Nat.ltb k (length (i_spans inp)) && Nat.eqb (s_rank (nth k (i_spans inp) span0)) rank
   end.
 
-Record input_wf (inp : input) : Prop := {
-  wf_actors : Forall actor_wf (i_actors inp);
-  wf_notes : Forall note_wf (i_notes inp);
-  wf_msgs : Forall (msg_wf (length (i_actors inp))) (i_msgs inp);
-  wf_rootlh : (0 <= i_rootlh inp)%Z;
-  wf_sorted : vi_sorted (i_msgs inp)          (* the sort oracle returned the messages sorted by line *)
-}.
+Definition msg_wf_b (inp : input) (m : msg) : bool :=
+  Z.leb 0 (m_lh m)
+  && Nat.ltb (m_src m) (length (i_actors inp)) && Nat.ltb (m_dst m) (length (i_actors inp))
+  && span_ref_ok inp (m_src m) (m_srcspan m) && span_ref_ok inp (m_dst m) (m_dstspan m).
+
+Fixpoint vi_sorted_b (ms : list msg) : bool :=
+  match ms with
+  | a :: ((b :: _) as t) => Z.leb (m_vi a) (m_vi b) && vi_sorted_b t
+  | _ => true
+  end.
+
+Definition wf_b (inp : input) : bool :=
+  forallb (fun a => Z.leb 0 (a_lh a)) (i_actors inp)
+  && forallb (fun n => Qle_bool 0 (n_h n)) (i_notes inp)
+  && forallb (msg_wf_b inp) (i_msgs inp)
+  && vi_sorted_b (i_msgs inp).         (* the sort oracle returned the messages sorted by line *)
 
 (* what math.Round guarantees about xs (any rounding to within 1 unit is enough for the theorems;
    Check.v verifies |x - unrounded| <= 1/2 + tol and that x is an integer) *)
